@@ -405,6 +405,23 @@ def mon_c08(h, outs):
 PROTECTED = ("otype", "owner", "policy", "mask", "alg", "len", "date")
 
 
+def sole_ok_items(items, o, op):
+    """the successful items of operation `op` of a request that are the ONLY successful item addressing their object
+    (explicit identifier; no successful item of the batch goes through the ID placeholder): what the request did to
+    that object is what this item did"""
+    res = o.get("results") or []
+    ok = [(it, r) for it, r in zip(items, res) if r.get("status") == "ok"]
+    if any(it.get("uid") is None and it["op"] not in ("create", "register", "createKeyPair", "locate", "query",
+                                                       "discoverVersions") for it, r in ok):
+        return []
+    out = []
+    for it, r in ok:
+        if it["op"] == op and it.get("uid") is not None and \
+                sum(1 for it2, r2 in ok if it2.get("uid") == it["uid"] or it["uid"] in (it2.get("uids") or [])) == 1:
+            out.append(it)
+    return out
+
+
 def mon_c15(h, outs):
     fails = []
     for i, j, o, before, after, pol in iter_requests(h, outs):
@@ -424,9 +441,7 @@ def mon_c15(h, outs):
                 fails.append(("c15:state-changed-by-attribute-op", "state of %s changed by attribute operations" % u, i))
         # a successful ModifyAttribute of one instance of a multi-valued attribute replaces THAT instance in place:
         # the other instances keep their value and their position (index)
-        if len(items) == 1 and items[0]["op"] == "modifyAttribute" and "results" in o and len(o["results"]) == 1 \
-                and o["results"][0].get("status") == "ok":
-            it = items[0]
+        for it in sole_ok_items(items, o, "modifyAttribute"):
             u = it.get("uid")
             ver = j["req"]["version"]
             if u in b and u in a:
@@ -462,9 +477,7 @@ def mon_c15(h, outs):
         # a successful DeleteAttribute of one instance of a multi-valued attribute removes exactly THAT instance
         # (KMIP 1.x: the instance with the given index, index 0 when none is given; KMIP 2.0: the instance with the
         # given current value)
-        if len(items) == 1 and items[0]["op"] == "deleteAttribute" and "results" in o and len(o["results"]) == 1 \
-                and o["results"][0].get("status") == "ok":
-            it = items[0]
+        for it in sole_ok_items(items, o, "deleteAttribute"):
             u = it.get("uid")
             ver = j["req"]["version"]
             if u in b and u in a:
@@ -480,6 +493,11 @@ def mon_c15(h, outs):
                         cv = (it.get("current") or {}).get("value") or {}
                         c = [cv.get("ns"), cv.get("d")] if fld == "appinfo" else cv.get("v")
                         idx = was.index(c) if c in was else None
+                    if idx is None and ver >= 20 and now != was:
+                        # the addressed instance (this very value) does not exist: whatever went, it was not addressed
+                        fails.append(("c15:delete-removed-unaddressed-instance:%s" % nm,
+                                      "DeleteAttribute of the instance of %s with value %r on object %s (KMIP 2.0) succeeded: "
+                                      "the object has no such instance; instances were %s, are now %s" % (nm, c, u, was, now), i))
                     if idx is not None and 0 <= idx < len(was):
                         want = was[:idx] + was[idx + 1:]
                         if now != want:
